@@ -368,7 +368,10 @@ func execBloom(c Case) string {
 				set = append(set, &dd)
 			}
 		}
-		m, idx := merkleblock.NewMerkleBlockWithTxnSet(bchutil.NewBlock(blk), set)
+		// ONE block object for all the proofs of this case: its transaction wrappers memoise their hashes, and the
+		// leaf hashes of a proof are those memo objects - a builder must not write into them
+		theBlock := bchutil.NewBlock(blk)
+		m, idx := merkleblock.NewMerkleBlockWithTxnSet(theBlock, set)
 		res := mmsgTok(m) + " " + u32List(idx) + " " + extractTok(m)
 		// a proof that was handed out stays what it was while later proofs are built (other subsets, other blocks)
 		var none []*chainhash.Hash
@@ -377,8 +380,11 @@ func execBloom(c Case) string {
 			h := t.TxHash()
 			all = append(all, &h)
 		}
-		merkleblock.NewMerkleBlockWithTxnSet(bchutil.NewBlock(blk), all)
-		merkleblock.NewMerkleBlockWithTxnSet(bchutil.NewBlock(blk), none)
+		merkleblock.NewMerkleBlockWithTxnSet(theBlock, all)
+		merkleblock.NewMerkleBlockWithTxnSet(theBlock, none)
+		if m2, idx2 := merkleblock.NewMerkleBlockWithTxnSet(theBlock, set); mmsgTok(m2)+" "+u32List(idx2)+" "+extractTok(m2) != res {
+			return "EXT " + strings.Join(leaves, ",") + " RES " + res + " SECOND-PROOF-FROM-THE-SAME-BLOCK-DIFFERS"
+		}
 		merkleblock.NewMerkleBlockWithTxnSet(bchutil.NewBlock(synthBlock(n+5, salt+1, false)), all)
 		if again := mmsgTok(m) + " " + u32List(idx) + " " + extractTok(m); again != res {
 			return "EXT " + strings.Join(leaves, ",") + " RES " + res + " LATER " + again
